@@ -75,6 +75,7 @@ type ShapeOpts struct {
 	NoJS      bool
 	NoIntCol  bool
 	PlainOnly bool // pass-through transform only
+	MaxXform  int  // > 0: draw the transform flavour from 0..MaxXform (3 = cache-sensitive flavour)
 	Encodings []string
 }
 
@@ -136,6 +137,9 @@ func DrawShape(t *rapid.T, o ShapeOpts) Shape {
 		max := 2
 		if o.NoJS {
 			max = 1
+		}
+		if o.MaxXform > 0 {
+			max = o.MaxXform
 		}
 		s.Xform = rapid.IntRange(0, max).Draw(t, "xform")
 	}
@@ -385,6 +389,25 @@ func (s Shape) transformDecls() obj {
 			obj{"const": "a"}, obj{"xpath": "c0"}}}}
 		fields["js2"] = obj{"custom_func": obj{"name": "javascript", "args": []interface{}{
 			obj{"const": "typeof b === 'undefined' ? a.toUpperCase() : 'leak'"}, obj{"const": "a"}, obj{"xpath": "c0"}}}}
+	case 3:
+		// cache-sensitive flavour: textually identical declarations at different positions, xpath_dynamic,
+		// javascript_with_context on the record and on its parent (which changes between records)
+		last := colName(s.NCols - 1)
+		fields["dyn"] = obj{"xpath_dynamic": obj{"custom_func": obj{"name": "concat", "args": []interface{}{obj{"const": "c"}, obj{"const": "0"}}}}}
+		fields["dynobj"] = obj{"xpath_dynamic": obj{"const": "."}, "object": obj{"c0": obj{"xpath": "c0"}, "l": obj{"xpath": last}}}
+		fields["same"] = obj{"xpath": "c0"}
+		fields["nest"] = obj{"object": obj{"same": obj{"xpath": "c0"}, "deeper": obj{"object": obj{"same": obj{"xpath": "c0"}}}}}
+		fields["arr"] = obj{"array": []interface{}{obj{"xpath": "c0"}, obj{"xpath": last}, obj{"xpath": "c0"}}}
+		fields["t1"] = obj{"template": "tpl"}
+		fields["t2"] = obj{"xpath": ".", "template": "tpl"}
+		fields["njs"] = obj{"custom_func": obj{"name": "javascript_with_context", "args": []interface{}{
+			obj{"const": "JSON.stringify(JSON.parse(_node)).length + ':' + x"}, obj{"const": "x"}, obj{"xpath": "c0"}}}}
+		fields["njs2"] = obj{"custom_func": obj{"name": "javascript_with_context", "args": []interface{}{
+			obj{"const": "JSON.stringify(JSON.parse(_node)).length + ':' + x"}, obj{"const": "x"}, obj{"xpath": last}}}}
+		fields["pjs"] = obj{"xpath": "..", "custom_func": obj{"name": "javascript_with_context", "args": []interface{}{
+			obj{"const": "JSON.stringify(JSON.parse(_node)).length"}}}}
+		decls["tpl"] = obj{"object": obj{"first": obj{"xpath": "c0"}, "js": obj{"custom_func": obj{"name": "javascript", "args": []interface{}{
+			obj{"const": "v.length"}, obj{"const": "v"}, obj{"xpath": last, "no_trim": true}}}}}}
 	}
 	fo := obj{"object": fields}
 	if xp := s.finalOutputXPath(); xp != "" {
